@@ -187,6 +187,29 @@ class SymZ:
         return f"Z({s.e})"
 
 
+def _defer_to_ndarray(cls):
+    """binary operators return NotImplemented for ndarray operands so that NumPy applies them elementwise"""
+    import functools
+    for name in ("__add__", "__radd__", "__sub__", "__rsub__", "__mul__", "__rmul__", "__truediv__", "__lt__", "__le__", "__gt__", "__ge__",
+                 "__eq__", "__ne__"):
+        f = cls.__dict__.get(name)
+        if f is None:
+            continue
+
+        def wrap(f):
+            @functools.wraps(f)
+            def g(self, o):
+                if isinstance(o, np.ndarray):
+                    return NotImplemented
+                return f(self, o)
+            return g
+        setattr(cls, name, wrap(f))
+
+
+_defer_to_ndarray(F64)
+_defer_to_ndarray(SymZ)
+
+
 def is_f64(x):
     return isinstance(x, (F64, SymZ))
 
